@@ -12,7 +12,7 @@ TECH_VK = TECH_V + ' + Kani/CBMC complete per-code-point harnesses for the table
 CLAIMS = {
     'C01': dict(tech=TECH_VK, ref='4 C01',
                 text='Panic freedom and termination of every extracted function as Verus built-in obligations (arithmetic overflow, slice-on-char-boundary, unwrap, decreases) for all strings/positions; partial_cmp totality and scalar width values by Kani over all u32.',
-                note='std/vstd glue contracts in prelude/vx.rs; unicode-normalization and char::to_lowercase assumed not to panic; table lookups themselves are checked by Kani for all u32 (unwinding assertions on); get_*_profile()/lazy_static not covered.'),
+                note='std/vstd glue contracts in prelude/vx.rs; unicode-normalization and char::to_lowercase assumed not to panic; table lookups themselves are checked by Kani for all u32 (unwinding assertions on); has_compat is verified with its real body; get_*_profile()/lazy_static not covered (exercised only by the bounded native run, labelled so).'),
     'C02': dict(tech=TECH_VK, ref='4 C02',
                 text='StringClass::allows (generic trait default method, any user class) proved equal to "result of the first unacceptable position" with code-point positions; dispatch to the registered rule with same label/offset; registry total for contextual code points by Kani over all u32.',
                 note='AsRef<str> purity; function-pointer call modelled by vx_call_rule (behaves as the registered rule, identity of the pointer proved by Kani).'),
@@ -48,10 +48,10 @@ CLAIMS = {
                 note='the clause "never applies f more than four times" counts calls and is not expressible as a postcondition; not claimed (see DESIGN).'),
     'C14': dict(tech=TECH_VK, ref='4 C14',
                 text='Decision list order proved in Verus against the RFC 8264 section 8 list over table predicates; every table predicate proved equal to its UCD 6.3.0 set by Kani for all 2^32 values; class relation lemma; non-scalars never valid.',
-                note='has_compat == (NFKC(cp) != cp) is not deductive here; oracle parser trusted.'),
+                note='HasCompat is defined as "NFKC(cp) != cp" over the uninterpreted normaliser and has_compat is verified against that definition; the exhaustive native lemma `derived` (kind X) cross-checks all of 0..=0x10FFFF on the real code; oracle parser trusted.'),
     'C15': dict(tech=TECH_VK, ref='4 C15',
-                text='The in-memory table algorithms proved for every well-formed input of any size: get_codepoints_vector (set -> sorted merged ranges: well-formed and denoting exactly the set), UnassignedTableGen::process_entry (searchable table covering exactly the gaps), BidiClassGen::compress_into_ranges (well-formed table denoting exactly the (code point, class) relation of the rows). End-to-end files->tables->lookup for the two pinned data sets by the Kani table harnesses.',
-                note='ucd-parse line parsing, regex, file I/O and the format!-based emission are trusted; ucd_parse::Codepoint/CodepointRange/Codepoints are a model of the dependency types; HashSet iteration + sort assumed to give the ascending elements; UnicodeData::parse folding and WidthMappingTableGen are not under contract (covered only end-to-end for the pinned data).'),
+                text='The in-memory generator algorithms proved for every well-formed input of any size (37 functions): UnicodeData::parse First/Last folding == recursive fold spec; all six UcdTableGen::process_entry flavours, ViramaTableGen, WidthMappingTableGen (row -> set/vector update); get_codepoints_vector (set -> sorted merged ranges: well-formed and denoting exactly the set); UnassignedTableGen::process_entry (searchable table covering exactly the gaps); BidiClassGen::compress_into_ranges (well-formed table denoting exactly the (code point, class) relation of the rows). End-to-end files->tables->lookup for the two pinned data sets by the Kani table harnesses; random small UCD inputs through the real generators as a bounded native stand-in for the driver loops and the text emission.',
+                note='ucd-parse line parsing, regex, file I/O and the format!-based emission are trusted; ucd_parse::Codepoint/CodepointRange/Codepoints are a model of the dependency types; HashSet iteration + sort assumed to give the ascending elements; the driver loops over Box<dyn UcdLineParser> and the format!-based emission are not under contract.'),
     'C08': dict(tech=TECH_VK, ref='4 C08',
                 text='Nickname: proved (lemma over the stabilize + nick_step contracts) that every accepted result is a fixed point, re-validated by FreeformClass, free of DISALLOWED/UNASSIGNED code points and re-enforced unchanged. Usernames/OpaqueString: validation-precedes-mapping is proved as part of the pipeline contracts; the per-code-point lemma "lowercase of a valid character stays non-forbidden" is evaluated exhaustively over all scalar values on the real code (listed known finding: Cherokee U+13A0..U+13F4); the NFC half rests on named unchecked axioms.',
                 note='NOT fully decided: the three algebraic facts about the external normaliser (idempotent, preserves validity, introduces no mappable character) are assumptions no contract on precis code can discharge; bounded corpus search is a stand-in and is labelled so.'),
